@@ -115,6 +115,15 @@ def _static_fn(n, layout, cplx, has_abs, has_res, mini_none, maxi_none, has_x0, 
     return _cache[key]
 
 
+def _quiet():
+    if "quiet" not in _cache:
+        import logging
+        import nifty.re  # noqa: F401
+        for h in logging.getLogger("nifty.re.logger").handlers:
+            h.setLevel(logging.CRITICAL + 1)
+        _cache["quiet"] = True
+
+
 def _res(x, info, nit, success):
     return dict(x=np.asarray(x), info=int(info), nit=int(nit), success=bool(success))
 
@@ -156,6 +165,7 @@ def run_hpd(c):
     from vf.ref import c14_sys as S
     from vf.ref import c15_ref as R
     n, cplx, seed, layout = c["n"], c["cplx"], c["seed"], c["layout"]
+    _quiet()
     wrap, flat = _layout(layout, n)
     fn = _static_fn(n, layout, cplx, c["absdelta"], c["resnorm"], c["miniter"] == "none", c["maxmode"] == "none", c["x0"], True)
     fallback = not c["absdelta"] and not c["resnorm"]
@@ -219,7 +229,6 @@ def run_hpd(c):
                         r = _eager(mat, flat, jv, x0e, cfg, maxiter) if solver == "eager" else _static(fn, Aj, jv, x0v, cfg, maxiter)
                         res[solver] = r
                         where = "%s %s %s" % (solver, tag, _cfgstr(cfg, maxiter))
-                        mz = "|maxiter=0" if maxiter == 0 else ""
                         if "raised" in r:
                             V("hpd|%s|raises-on-positive-definite|%s" % (solver, r["raised"].split(": ")[-1]), "%s raised %s" % (where, r["raised"]))
                             continue
@@ -235,8 +244,16 @@ def run_hpd(c):
                         if r["info"] < 0:
                             V("hpd|%s|negative-info-on-positive-definite" % solver, "%s info=%d" % (where, r["info"]))
                             continue
+                        if maxiter == 0:
+                            # no iteration allowed: the start must come back, and not as a success (the start is never a solution here)
+                            r["amb"] = False
+                            if r["nit"] != 0 or np.linalg.norm(x - x0) != 0:
+                                V("hpd|%s|maxiter=0|iterates-anyway" % solver, "%s nit=%d info=%d |x-x0|=%.2e" % (where, r["nit"], r["info"], np.linalg.norm(x - x0)))
+                            elif r["info"] == 0 and rn > sg:
+                                V("hpd|%s|maxiter=0|reports-success-without-iterating" % solver, "%s info=0 with x = x0, |Ax-j|=%.2e" % (where, rn))
+                            continue
                         if r["nit"] > ma:
-                            V("hpd|%s|iterates-beyond-maxiter%s" % (solver, mz), "%s nit=%d > maxiter=%d" % (where, r["nit"], ma))
+                            V("hpd|%s|iterates-beyond-maxiter" % solver, "%s nit=%d > maxiter=%d" % (where, r["nit"], ma))
                         # criterion values at the returned point (true quantities)
                         dE = None
                         if cfg["absdelta"] is not None and r["nit"] >= 1:
@@ -249,12 +266,13 @@ def run_hpd(c):
                         crit_abs = dE is not None and dE < cfg["absdelta"] + 2 * sE
                         r["crit"] = bool(crit_res or crit_abs)
                         exact = rn <= sg
+                        r["valid_success"] = bool(exact or (r["crit"] and r["nit"] >= mi))
                         if r["info"] == 0 and not exact:
                             if r["nit"] < mi:
-                                V("hpd|%s|success-before-miniter%s" % (solver, mz),
+                                V("hpd|%s|success-before-miniter" % solver,
                                   "%s reports info=0 after %d iterations (miniter %d), |Ax-j|=%.2e" % (where, r["nit"], mi, rn))
                             elif not r["crit"]:
-                                V("hpd|%s|success-without-criterion%s" % (solver, mz),
+                                V("hpd|%s|success-without-criterion" % solver,
                                   "%s reports info=0 at nit=%d but |Ax-j|=%.3e (resnorm %s), last energy decrease %s (absdelta %s)"
                                   % (where, r["nit"], rn, resn, dE, cfg["absdelta"]))
                         if r["info"] > 0 and r["nit"] != ma:
@@ -265,7 +283,7 @@ def run_hpd(c):
                                 V("hpd|%s|iterate-not-krylov-optimal" % solver,
                                   "%s: E(x)=%.15g after %d iterations, Krylov optimum %.15g (E0-E*=%.2e)" % (where, E, r["nit"], Eref[r["nit"]], gap0))
                     e, s = res["eager"], res["static"]
-                    if "E" not in e or "E" not in s:
+                    if "E" not in e or "E" not in s or maxiter == 0:
                         continue
                     if e["info"] == 0:
                         if maxiter is not None and e["nit"] == maxiter and maxiter > 0:
@@ -279,20 +297,19 @@ def run_hpd(c):
                         continue
                     st["compared"] += 1
                     where = "%s %s" % (tag, _cfgstr(cfg, maxiter))
-                    mz = "|maxiter=0" if maxiter == 0 else ""
                     ce, cs = np.sign(e["info"]), np.sign(s["info"])
                     if e["nit"] != s["nit"]:
-                        V("hpd|disagree|iterations%s" % mz, "%s: eager nit=%d info=%d, static nit=%d info=%d"
+                        V("hpd|disagree|iterations", "%s: eager nit=%d info=%d, static nit=%d info=%d"
                           % (where, e["nit"], e["info"], s["nit"], s["info"]))
                     elif ce != cs:
                         who = "static" if cs != 0 else "eager"
                         other = e if who == "static" else s
-                        if other["crit"] and other["nit"] == ma and other["nit"] >= mi:
+                        if other["info"] == 0 and other["valid_success"] and other["nit"] == ma:
                             V("hpd|disagree|verdict|converged-exactly-at-maxiter|%s-reports-failure" % who,
                               "%s: both stop at nit=%d=maxiter with |Ax-j|=%.2e, criterion met; eager info=%d, static info=%d"
                               % (where, e["nit"], e["rn"], e["info"], s["info"]))
                         else:
-                            V("hpd|disagree|verdict%s" % mz, "%s: eager info=%d, static info=%d at nit=%d" % (where, e["info"], s["info"], e["nit"]))
+                            V("hpd|disagree|verdict", "%s: eager info=%d, static info=%d at nit=%d" % (where, e["info"], s["info"], e["nit"]))
                     if e["nit"] == s["nit"]:
                         d = np.linalg.norm(e["x"] - s["x"])
                         if d > 1e-10 * max(1., np.linalg.norm(e["x"])):
@@ -312,6 +329,7 @@ def run_nonpd(c):
     from vf.ref import c14_sys as S
     from vf.ref import c15_ref as R
     n, cplx, seed, layout, solver, rz = c["n"], c["cplx"], c["seed"], c["layout"], c["solver"], c["raise_nonposdef"]
+    _quiet()
     wrap, flat = _layout(layout, n)
     found = {}
     st = dict(runs=0, negcurv_first_direction=0, negcurv_later=0, zero_curvature=0, curvature_never_met=0, raised=0)
@@ -328,6 +346,8 @@ def run_nonpd(c):
             def mat(v, Aj=Aj):
                 return wrap(Aj @ flat(v))
             for rhs in ("eneg", "mix_first", "mix_late", "epos", "gen"):
+                if name == "singular" and (mixed or c["x0"] or rhs not in ("eneg", "epos")):
+                    continue   # exact zero curvature only (round-off-level curvature has no defined sign)
                 j = R.nonpd_rhs(rhs, n, cplx, lam, U, seed)
                 if j is None:
                     continue
